@@ -196,6 +196,11 @@ pub fn generate_c02(thorough: bool, seed: u64, _part: (usize, usize), em: &mut E
     } } } }
     // plain RDP security selected although TLS / NLA was asked for, by a server that then speaks in the clear
     for nla in 0..2 { crate::props::conn::tlsgate(em, false, nla == 1, false, 0x100); }
+    // a confirm without any negotiation response (a pre-negotiation server), which then speaks in the clear
+    for nla in 0..2 { for ra in 0..2 { crate::props::conn::tlsgate(em, false, nla == 1, ra == 1, 0x200); } }
+    // the flag byte of the negotiation response (EXTENDED_CLIENT_DATA, RESTRICTED_ADMIN_MODE_SUPPORTED, ...) does not
+    // change which protocol runs: the one selected, which must be one of those offered
+    for nla in 0..2 { for ra in 0..2 { for nf in &[0x08u32, 0x1f, 0x01] { crate::props::conn::tlsgate(em, false, nla == 1, ra == 1, 0x1000 | (nf << 16)); } } }
     // NLA selected and TLS established, but a CredSSP reply is not a TSRequest: the connection fails, MCS never starts
     for which in &[1u8, 2] { for junk in &["00", "3003020100", "ffffffff", ""] { crate::props::conn::nlagate(em, *which, junk); } }
     // absent / truncated / extended / random confirms
@@ -233,6 +238,11 @@ pub fn generate_c05(thorough: bool, seed: u64, part: (usize, usize), em: &mut Em
     let good = confirm(2, 0, 1);
     for off in 0..good.len() { for v in fault_vals { let mut b = good.clone(); b[off] = *v; emit(em, format!("x224_conn 3 {} {}", r.below(2), hex(&b))); } }
     for cut in 0..good.len() { emit(em, format!("x224_conn 3 1 {}", hex(&good[..cut]))); }
+    // every offer (none at all — standard RDP security only — included) against every selection, with and without an
+    // authentication protocol at hand: a value or an error
+    for off in &[0u32, 1, 2, 3, 8, 9, 11, 0x80000000] { for auth in 0..2 { for sel in &[0u32, 1, 2, 3, 4, 8, 16, 0x80000000] {
+        emit(em, format!("x224_conn {} {} {}", off, auth, hex(&confirm(2, 0, *sel))));
+    } } }
     // every negotiation-failure code (and the other reply types) over the whole low byte and above
     for ty in &[3u8, 1, 0, 4, 0xff] { for code in (0..=255u32).chain([256u32, 0xffff, 0x7fffffff, 0xffffffff].iter().cloned()) { emit(em, format!("x224_conn 3 1 {}", hex(&confirm(*ty, 0, code)))); } }
     {
